@@ -53,7 +53,7 @@ GrowString ==
 \* ---- structure track
 T(n) == <<116, 48 + n>>    \* distinct tokens "t1".."t9" by origin
 WriterPool == { Basic(<<117>>, <<112, COLON, 113>>), APIKey(XKEY, "header", T(1)), APIKey(KQ, "query", T(2)),
-                APIKey(ACCESS, "query", T(3)), Bearer(T(4)), Bearer(<<>>) }
+                APIKey(ACCESS, "query", T(3)), Bearer(T(4)), Bearer(<<>>), W("absent", <<>>, "", <<>>, <<>>) }
 DefPool    == { Basic(<<100>>, <<101>>), APIKey(xkey, "header", T(5)), Bearer(T(6)) }
 AuthPool   == { Auth("basic", <<>>, "", r, <<>>, e) : r \in {"", "realm"}, e \in BOOLEAN }
               \cup { Auth("apikey", n, "header", "", <<>>, e) : n \in {XKEY, xkey}, e \in BOOLEAN }
